@@ -1,27 +1,54 @@
 #!/usr/bin/env python3
-"""C06 translator: serde field names of the signature format, re-read from /repo on every run.
+"""C06 translator: the serde layout of the signature format, re-derived from /repo on every run.
 
-Sources (regex over the Rust text):
-  sketch/minhash.rs   `impl Serialize for KmerMinHash / KmerMinHashBTree`: the `serialize_field("…")` names in
-                      order (+ whether the call sits inside the `if let Some(abunds)` block); both `TempSig`
-                      structs (names, types); the `match tmpsig.molecule.to_lowercase()` arms
-  sketch/mod.rs       the `Sketch` enum: `#[serde(untagged)]`, variant order and payload types
-  signature.rs        `struct Signature`: names after `#[serde(rename = …)]`, `skip_serializing_if`, `default`,
-                      and the literal each `default_*()` function returns
-  sketch/hyperloglog  `struct HyperLogLog` (serde derive: field names and types)
-  encodings.rs        `Display for HashFunctions` (the string written into "molecule")
-Behavioural cross-check: `harness c06 dump` serialises a sample signature with serde_json and prints the
-key order actually produced, the molecule strings and the defaults actually applied on load; any
-disagreement with the regex reading is an error (exit 1).
+Behavioural route (authoritative): `harness c06 dump` probes the BUILT crate — serde_json through the
+public types KmerMinHash, KmerMinHashBTree, HyperLogLog, Sketch, Signature (Signature::from_reader) — on
+the whole finite domain of every item the tables carry:
+  written keys       names and order serde_json emits for each struct (sketches with abundances Some / Some(empty)
+                     / None, signatures with every Option set / name None / filename None / every string empty)
+                     -> the `…Ser` tables, the conditional flag of a key (left out exactly when the Option is None),
+                     `skipIfNone`, the order of `hllFields` and `sigFields`
+  loadable keys      every written key against the boundary values 0, 255, 256, 65535, 65536, 2^32-1, 2^32, 2^53,
+                     2^64-1, 2^64, -1, 1.5, "1", "DNA", null, true, {}, [], [0], [255], [256], [2^64-1], [2^64], [-1],
+                     [1.5], ["1"], [null], [{}], [a MinHash object], [a HyperLogLog object] and against its absence
+                     -> the type class of the key (the set of accepted values must be exactly that of u32 / u64 / f64 /
+                     string / optString / vecU64 / optVecU64 / vecU8 / vecSketch; anything else cannot be expressed
+                     by the Lean tables = exit 1) and required / None / default(+ the value, observed through the
+                     accessors after loading an object that holds only the required keys)
+  positional form    derive(Deserialize) structs also load from a JSON array: which key each position feeds
+                     -> the order of the `…Temp` tables (the declaration order of the wire struct)
+  molecule strings   what is written for every HashFunctions variant; which variant (or panic / error) loads for every
+                     written word in upper / lower / mixed case, the published words and a list of unknown words
+                     -> `displayArms`, the `…MolArms` tables (one row per lower-cased accepted word), and the check
+                     that every word no row matches panics (`unimplemented!()`)
+  num of a scaled sketch   num = 5 loaded with max_hash = 0 / 1 / u64::MAX must come back as 5 / 0 / 0 (both types)
+  Sketch enum        written without a tag (Sketch::V(x) is written as x is); an object only HyperLogLog accepts, one the
+                     two MinHash types accept, one all three accept -> the order in which the variants are tried
+  top level          a saved document is a JSON array
+A dump that fails, is incomplete, contradicts itself or shows a class the tables cannot express is exit 1.
+
+Two things no load can tell apart are listed by a fixed rule: u64 and usize accept the same values on the
+64-bit target (the class is spelled `usize` in `hllFields`, `u64` elsewhere); every object the tree-backed type
+accepts the vector-backed type accepts first, so only "MinHash is tried first" is observable — LargeMinHash and
+HyperLogLog follow in the order the harness lists the variants.  The rows of the `…MolArms` tables are disjoint
+literals; they are listed in the fixed order protein, dayhoff, hp, dna (then any other word, sorted).
+
+Textual route (advisory cross-check): regexes over sketch/minhash.rs (`impl Serialize`: `serialize_field`
+names; `struct TempSig`; the molecule match; the `num` line), sketch/mod.rs (`enum Sketch`), signature.rs
+(`struct Signature` and its serde attributes, the `default_*()` literals), sketch/hyperloglog (`struct
+HyperLogLog`), encodings.rs (`Display for HashFunctions`).  When a pattern is no longer found (code moved,
+restructured, spelled differently) or the reading disagrees with the behaviour, a `note:` line is printed on
+stdout and the tables come from the behavioural dump alone; it is never an error.
 
 Output: lean/Sourmash/Generated/C06.lean (rewritten only when the content changes).
 """
 import os, re, struct, subprocess, sys
 
 ROOT = os.path.dirname(os.path.dirname(os.path.abspath(__file__)))
-SRC = "/repo/src/core/src"
+# VERIF_REPO / VERIF_TARGET: only set by tools/mutest.py (seeded changes in a scratch worktree)
+SRC = os.path.join(os.environ.get("VERIF_REPO", "/repo"), "src/core/src")
 OUT = os.path.join(ROOT, "lean", "Sourmash", "Generated", "C06.lean")
-BIN = os.path.join(ROOT, ".cache", "target", "debug", "c06")
+BIN = os.path.join(os.environ.get("VERIF_TARGET", os.path.join(ROOT, ".cache", "target")), "debug", "c06")
 
 
 def die(msg):
@@ -29,18 +56,306 @@ def die(msg):
     sys.exit(1)
 
 
+# ----------------------------------------------------------------------------- behavioural route
+
+_U32 = {"0", "255", "256", "65535", "65536", "u32max"}
+_U64 = _U32 | {"2p32", "2p53", "u64max"}
+_F64 = _U64 | {"2p64", "neg", "frac"}
+_STR = {"str", "word"}
+_VU8 = {"arr", "arr_0", "arr_255"}
+_VU64 = _VU8 | {"arr_256", "arr_u64max"}
+_VSK = {"arr", "arr_mh", "arr_hll"}
+# type class = exactly this set of probe labels loads (everything else is refused)
+CLASSES = [("u32", _U32), ("u64", _U64), ("f64", _F64), ("string", _STR), ("optString", _STR | {"null"}),
+           ("vecU64", _VU64), ("optVecU64", _VU64 | {"null"}), ("vecU8", _VU8), ("vecSketch", _VSK)]
+LABELS = _F64 | _STR | _VU64 | _VSK | {"null", "true", "obj", "arr_2p64", "arr_neg", "arr_frac", "arr_str", "arr_null", "arr_obj"}
+# the order in which disjoint literal arms are listed (not observable)
+ARM_ORDER = ["protein", "dayhoff", "hp", "dna"]
+# the order of the wire struct's fields when the positional form is not accepted at all (then not observable)
+READ_ORDER = ["num", "ksize", "seed", "max_hash", "md5sum", "mins", "abundances", "molecule"]
+
+
+def unhex(s):
+    return "" if s == "-" else bytes.fromhex(s).decode()
+
+
+def ascii_lower(s):
+    return "".join(chr(ord(c) + 32) if "A" <= c <= "Z" else c for c in s)
+
+
+def dump():
+    if not os.path.exists(BIN):
+        die(f"{BIN} missing (the harness is built before the translator runs)")
+    p = subprocess.run([BIN, "dump"], capture_output=True, timeout=120)
+    if p.returncode != 0:
+        die("harness c06 dump failed: " + p.stderr.decode(errors="replace")[-500:])
+    d = {"probe": {}, "absent": {}, "molload": {}, "written_molecule": {}, "molecule": [], "default": {}, "required": {},
+         "positional": {}, "numzero": {}, "sketch_variant": [], "sketch_untagged": {}, "sketch_load": {}, "keys": {}}
+    for line in p.stdout.decode().split("\n"):
+        w = line.split(" ")
+        k = w[0]
+        if not line:
+            continue
+        if k == "unloadable":
+            die(f"dump: the sample {w[1]} object the crate itself wrote does not load back")
+        if k == "probe" and len(w) == 5:
+            d["probe"].setdefault((w[1], w[2]), {})[w[3]] = w[4]
+        elif k == "absent" and len(w) == 5:
+            d["absent"][(w[1], w[2])] = (w[3], w[4])
+        elif k == "molload" and len(w) >= 4:
+            d["molload"].setdefault(w[1], []).append((unhex(w[2]), " ".join(w[3:])))
+        elif k == "written_molecule" and len(w) == 4:
+            d["written_molecule"].setdefault(w[1], []).append((w[2], unhex(w[3])))
+        elif k == "molecule" and len(w) == 3:
+            d["molecule"].append((w[1], w[2]))
+        elif k in ("default", "required", "sketch_untagged", "sketch_load") and len(w) == 3:
+            d[k][w[1]] = w[2]
+        elif k == "sketch_variant" and len(w) == 3:
+            d[k].append((w[1], w[2]))
+        elif k in ("positional", "numzero") and len(w) >= 3:
+            d[k][w[1]] = w[2:]
+        elif k == "top_is_array" and len(w) == 2:
+            d[k] = w[1]
+        elif k in ("kmh_abund", "kmh_abund_empty", "kmh", "btree_abund", "btree_abund_empty", "btree", "hll",
+                   "signature_full", "signature_noname", "signature_nofilename", "signature_emptystr"):
+            d["keys"][k] = w[1:]
+        else:
+            die(f"dump: line not understood: {line!r}")
+    for k in ("kmh_abund", "kmh_abund_empty", "kmh", "btree_abund", "btree_abund_empty", "btree", "hll",
+              "signature_full", "signature_noname", "signature_nofilename", "signature_emptystr"):
+        if not d["keys"].get(k):
+            die(f"dump: item {k} missing")
+    for k in ("top_is_array",):
+        if k not in d:
+            die(f"dump: item {k} missing")
+    return d
+
+
+def type_class(d, ty, key):
+    """the type class of `key` of struct `ty`, from the set of probe values that load"""
+    pr = d["probe"].get((ty, key))
+    if pr is None or set(pr) != LABELS:
+        die(f"dump: probes of {ty}.{key} missing or incomplete")
+    bad = {v for v in pr.values()} - {"ok", "err", "panic"}
+    if bad:
+        die(f"dump: probes of {ty}.{key}: outcome {sorted(bad)}")
+    # a panic happens after the value was taken (molecule: the word is looked up afterwards)
+    acc = {l for l, v in pr.items() if v != "err"}
+    for name, want in CLASSES:
+        if acc == want:
+            return name
+    if acc == LABELS and d["absent"].get((ty, key), ("", ""))[0] == "ok":
+        return None  # written but not read at all
+    die(f"{ty}.{key} loads exactly the probe values {sorted(acc)}: not one of the type classes the Lean tables know "
+        f"({', '.join(n for n, _ in CLASSES)})")
+
+
+def absent_class(d, ty, key, cls):
+    """'required' | 'none' | 'default' for a key that is left out"""
+    a = d["absent"].get((ty, key))
+    if a is None:
+        die(f"dump: absent probe of {ty}.{key} missing")
+    if a[0] == "err":
+        if cls.startswith("opt"):
+            die(f"{ty}.{key} accepts null but must be present: not a class the Lean tables know")
+        return "required"
+    if a[0] != "ok":
+        die(f"{ty}.{key} left out: {a[0]}")
+    return "none" if cls.startswith("opt") else "default"
+
+
+def ser_table(d, ty):
+    full, empty, plain = d["keys"][ty + "_abund"], d["keys"][ty + "_abund_empty"], d["keys"][ty]
+    if full != empty:
+        die(f"{ty}: the keys written with an empty abundance list ({empty}) are not those written with a non-empty one "
+            f"({full}) — a key that depends on more than Some/None cannot be expressed")
+    rows = [(k, k not in plain) for k in full]
+    if [k for k, c in rows if not c] != plain or len(set(full)) != len(full):
+        die(f"{ty}: keys without abundances {plain} are not a sub-sequence of the keys with abundances {full}")
+    return rows
+
+
+def temp_table(d, ty, ser):
+    rows = {}
+    for k, _ in ser:
+        cls = type_class(d, ty, k)
+        if cls is None:
+            print(f"translator/c06.py: note: {ty}: key {k!r} is written but any value (or none) loads — it is not read")
+            continue
+        want = "none" if cls.startswith("opt") else "required"
+        if absent_class(d, ty, k, cls) != want:
+            die(f"{ty}.{k}: type class {cls} but a missing key is not `{want}` — cannot be expressed")
+        rows[k] = cls
+    pos = d["positional"].get(ty)
+    if pos is None:
+        die(f"dump: item positional {ty} missing")
+    if pos == ["-"]:
+        print(f"translator/c06.py: note: {ty} does not load from the positional (array) form; the order of its wire fields "
+              "is not observable, listing them in the published read order")
+        order = [k for k in READ_ORDER if k in rows] + [k for k, _ in ser if k in rows and k not in READ_ORDER]
+    else:
+        order = pos
+        if sorted(order) != sorted(rows):
+            die(f"{ty}: the positional form feeds {order}, the keyed form reads {sorted(rows)}")
+    nz = d["numzero"].get(ty)
+    if nz != ["5", "0", "0"]:
+        die(f"{ty}: num = 5 loaded with max_hash = 0 / 1 / u64::MAX gives num = {nz}, expected 5 0 0 (`num` is zeroed "
+            "exactly when max_hash != 0)")
+    return [(k, rows[k]) for k in order]
+
+
+def molecule_tables(d):
+    wm = d["written_molecule"]
+    if not wm.get("kmh") or wm.get("kmh") != wm.get("btree"):
+        die(f"molecule strings written by the two sketch types differ or are missing: {wm}")
+    disp = wm["kmh"]
+    if len({v for v, _ in disp}) != len(disp):
+        die("dump: written_molecule lists a variant twice")
+    if d["molecule"] != disp:
+        print(f"translator/c06.py: note: Display for HashFunctions gives {d['molecule']}, the sketches write {disp}")
+    arms = {}
+    for ty in ("kmh", "btree"):
+        loads = d["molload"].get(ty)
+        if not loads:
+            die(f"dump: item molload {ty} missing")
+        words = {w for w, _ in loads}
+        for _, w in disp:
+            for c in (w, w.lower(), w.upper()):
+                if c not in words:
+                    die(f"dump: molload {ty} has no probe for {c!r}")
+        tab = {}
+        for w, out in loads:
+            if out.startswith("ok "):
+                lw = ascii_lower(w)
+                if tab.setdefault(lw, out[3:]) != out[3:]:
+                    die(f"{ty}: molecule words that differ only in letter case load as different variants ({lw!r})")
+        for w, out in loads:
+            want = ("ok " + tab[ascii_lower(w)]) if ascii_lower(w) in tab else "panic"
+            if out != want:
+                die(f"{ty}: molecule {w!r} gives `{out}`, the arms table (lower-cased literal arms, everything else "
+                    f"`unimplemented!()`) says `{want}` — cannot be expressed")
+        order = [a for a in ARM_ORDER if a in tab] + sorted(a for a in tab if a not in ARM_ORDER)
+        arms[ty] = [(a, tab[a]) for a in order]
+    return disp, arms["kmh"], arms["btree"]
+
+
+def sketch_table(d):
+    vs = d["sketch_variant"]
+    if not vs or len({v for v, _ in vs}) != len(vs):
+        die("dump: item sketch_variant missing")
+    for v, _ in vs:
+        if d["sketch_untagged"].get(v) != "true":
+            die(f"enum Sketch is no longer #[serde(untagged)]: Sketch::{v}(x) is not written as x is")
+    sl = d["sketch_load"]
+    for k in ("mh", "mh_noabund", "hll", "all"):
+        if sl.get(k) not in {v for v, _ in vs}:
+            die(f"enum Sketch: the {k} object gives `{sl.get(k)}` instead of loading as a variant")
+    payload = dict(vs)
+    if payload[sl["hll"]] == payload[sl["mh"]] or sl["mh"] != sl["mh_noabund"]:
+        die(f"enum Sketch: loads {sl} cannot be explained by an order in which the variants are tried")
+    # the variant that wins an object every variant accepts is tried first; the one that wins an object the
+    # two MinHash types accept comes before the other MinHash type; the rest keeps the listed order
+    listed = [v for v, _ in vs]
+    names = sorted(listed, key=lambda v: (0 if v == sl["all"] else 1 if v == sl["mh"] else 2, listed.index(v)))
+    return [(v, payload[v]) for v in names]
+
+
+def hll_table(d):
+    rows = []
+    for k in d["keys"]["hll"]:
+        cls = type_class(d, "hll", k)
+        if cls is None:
+            print(f"translator/c06.py: note: hll: key {k!r} is written but not read")
+            continue
+        if absent_class(d, "hll", k, cls) != "required":
+            die(f"hll.{k}: may be left out — cannot be expressed")
+        # u64 and usize are one class on the 64-bit target; this table spells it usize
+        rows.append((k, "usize" if cls == "u64" else cls))
+    return rows
+
+
+def signature_table(d):
+    K = d["keys"]
+    full = K["signature_full"]
+    if K["signature_emptystr"] != full:
+        die(f"Signature: with empty strings the keys {K['signature_emptystr']} are written instead of {full} — a key "
+            "that is left out for a value other than None cannot be expressed")
+    if len(set(full)) != len(full):
+        die("Signature: a key is written twice")
+    out = []
+    for k in full:
+        cls = type_class(d, "signature", k)
+        if cls is None:
+            die(f"Signature.{k} is written but not read")
+        skip = False
+        if cls.startswith("opt"):
+            probe = {"name": "signature_noname", "filename": "signature_nofilename"}.get(k)
+            if probe is None:
+                die(f"Signature.{k}: an Option the harness has no None sample for")
+            skip = k not in K[probe]
+            if K[probe] != [x for x in full if not (skip and x == k)]:
+                die(f"Signature: with {k} = None the keys {K[probe]} are written")
+        a = absent_class(d, "signature", k, cls)
+        if (a == "required") != (d["required"].get(k) == "true"):
+            die(f"dump: required {k} contradicts the absent probe")
+        if a == "required":
+            dflt = ("required",)
+        else:
+            v = d["default"].get(k)
+            if v is None:
+                die(f"dump: item default {k} missing")
+            if a == "none":
+                if v != "~":
+                    die(f"Signature.{k} absent does not load as None")
+                dflt = ("none",)
+            elif cls == "string":
+                dflt = ("str", unhex(v))
+            elif cls == "f64":
+                dflt = ("f64", struct.unpack(">d", bytes.fromhex(v))[0])
+            else:
+                die(f"Signature.{k}: a default on type class {cls} cannot be expressed")
+        out.append({"name": k, "ty": cls, "skip": skip, "dflt": dflt})
+    if d["top_is_array"] != "true":
+        die("a saved document is no longer a JSON array")
+    return out
+
+
+def behavioural():
+    d = dump()
+    t = {}
+    t["kmh_ser"] = ser_table(d, "kmh")
+    t["bt_ser"] = ser_table(d, "btree")
+    t["kmh_tmp"] = temp_table(d, "kmh", t["kmh_ser"])
+    t["bt_tmp"] = temp_table(d, "btree", t["bt_ser"])
+    t["disp"], t["kmh_arms"], t["bt_arms"] = molecule_tables(d)
+    t["hll"] = hll_table(d)
+    t["variants"] = sketch_table(d)
+    t["sig"] = signature_table(d)
+    return t
+
+
+# ----------------------------------------------------------------------------- textual route (advisory)
+
+class NoText(Exception):
+    """the sources no longer spell an item the way the textual reading expects"""
+
+
+def no_text(msg):
+    raise NoText(msg)
+
+
 def read(rel):
     try:
         return open(os.path.join(SRC, rel)).read()
     except OSError as e:
-        die(f"cannot read {rel}: {e}")
+        no_text(f"cannot read {rel}: {e}")
 
 
 def block_after(src, header_re, what):
     """text of the brace block that follows the first match of header_re (which must end before the `{`)"""
     m = re.search(header_re, src)
     if not m:
-        die(f"{what}: not found")
+        no_text(f"{what}: not found")
     i = src.index("{", m.end() - 1)
     depth, j = 0, i
     while j < len(src):
@@ -51,7 +366,7 @@ def block_after(src, header_re, what):
             if depth == 0:
                 return src[i + 1:j]
         j += 1
-    die(f"{what}: unbalanced braces")
+    no_text(f"{what}: unbalanced braces")
 
 
 def strip_comments(s):
@@ -75,10 +390,10 @@ def ser_fields(src, ty):
                 depth0 = depth
             out.append((m.group(1), depth > depth0))
     if not out:
-        die(f"impl Serialize for {ty}: no serialize_field calls")
+        no_text(f"impl Serialize for {ty}: no serialize_field calls")
     m = re.search(r"serialize_struct\(\s*\"([^\"]+)\"", body)
     if not m or m.group(1) != ty:
-        die(f"impl Serialize for {ty}: serialize_struct name")
+        no_text(f"impl Serialize for {ty}: serialize_struct name")
     return out
 
 
@@ -98,11 +413,11 @@ def struct_fields(body, what):
         else:
             ty = re.sub(r"\s+", "", m.group("ty"))
             if ty not in TYMAP:
-                die(f"{what}: field {m.group('name')} has a type this translator does not know: {ty}")
+                no_text(f"{what}: field {m.group('name')} has a type this translator does not know: {ty}")
             out.append((attrs, m.group("name"), TYMAP[ty]))
             attrs = []
     if not out:
-        die(f"{what}: no fields")
+        no_text(f"{what}: no fields")
     return out
 
 
@@ -110,18 +425,18 @@ def temp_sig(src, ty):
     de = block_after(src, r"impl<'de>\s+Deserialize<'de>\s+for\s+%s\s*\{" % ty, f"impl Deserialize for {ty}")
     m = re.search(r"#\[derive\(([^)]*)\)\]\s*struct\s+TempSig\s*\{", de)
     if not m or "Deserialize" not in m.group(1):
-        die(f"{ty}: `#[derive(Deserialize)] struct TempSig` not found")
+        no_text(f"{ty}: `#[derive(Deserialize)] struct TempSig` not found")
     body = block_after(de, r"struct\s+TempSig\s*\{", f"{ty}::TempSig")
     fields = struct_fields(body, f"{ty}::TempSig")
     for a, n, _ in fields:
         if a:
-            die(f"{ty}::TempSig.{n}: unexpected attribute {a}")
+            no_text(f"{ty}::TempSig.{n}: unexpected attribute {a}")
     arms_src = block_after(de, r"match\s+tmpsig\.molecule\.to_lowercase\(\)\.as_ref\(\)\s*\{", f"{ty}: molecule match")
     arms = re.findall(r"\"([^\"]*)\"\s*=>\s*HashFunctions::(\w+)", arms_src)
     if not re.search(r"_\s*=>\s*unimplemented!\(\)", arms_src):
-        die(f"{ty}: the fall-through arm of the molecule match is no longer `unimplemented!()`")
+        no_text(f"{ty}: the fall-through arm of the molecule match is no longer `unimplemented!()`")
     if not re.search(r"if\s+tmpsig\.max_hash\s*!=\s*0\s*\{\s*0\s*\}\s*else\s*\{\s*tmpsig\.num\s*\}", de):
-        die(f"{ty}: `num` is no longer zeroed when max_hash != 0")
+        no_text(f"{ty}: `num` is no longer zeroed when max_hash != 0")
     return [(n, t) for _, n, t in fields], arms
 
 
@@ -140,27 +455,27 @@ def serde_args(attrs):
 def signature_struct(src):
     m = re.search(r"#\[derive\(([^)]*)\)\](?:\s*#\[[^\]]*\])*\s*pub\s+struct\s+Signature\s*\{", src, re.S)
     if not m or "Serialize" not in m.group(1) or "Deserialize" not in m.group(1):
-        die("signature.rs: `#[derive(Serialize, Deserialize, …)] pub struct Signature` not found")
+        no_text("signature.rs: `#[derive(Serialize, Deserialize, …)] pub struct Signature` not found")
     head = src[m.start():m.end()]
     if re.search(r"serde\s*\(", head):
-        die("signature.rs: container-level #[serde(...)] attribute on Signature — not understood")
+        no_text("signature.rs: container-level #[serde(...)] attribute on Signature — not understood")
     body = block_after(src, r"pub\s+struct\s+Signature\s*\{", "struct Signature")
     out = []
     for attrs, name, ty in struct_fields(body, "struct Signature"):
         a = serde_args(attrs)
         unknown = set(a) - {"default", "rename", "skip_serializing_if"}
         if unknown:
-            die(f"Signature.{name}: serde attribute(s) {sorted(unknown)} not understood")
+            no_text(f"Signature.{name}: serde attribute(s) {sorted(unknown)} not understood")
         ser = a.get("rename", name)
         skip = a.get("skip_serializing_if")
         if skip not in (None, "Option::is_none"):
-            die(f"Signature.{name}: skip_serializing_if = {skip!r} not understood")
+            no_text(f"Signature.{name}: skip_serializing_if = {skip!r} not understood")
         d = a.get("default")
         if d is None:
             dflt = ("none",) if ty.startswith("opt") else ("required",)
         elif d is True:
             if ty != "string":
-                die(f"Signature.{name}: #[serde(default)] on type {ty}")
+                no_text(f"Signature.{name}: #[serde(default)] on type {ty}")
             dflt = ("str", "")
         else:
             fb = block_after(src, r"fn\s+%s\s*\(\s*\)\s*->\s*\w+\s*\{" % re.escape(d), f"fn {d}")
@@ -171,7 +486,7 @@ def signature_struct(src):
             elif mf and ty == "f64":
                 dflt = ("f64", float(mf.group(1)))
             else:
-                die(f"fn {d}: body {fb.strip()!r} is not a literal of type {ty}")
+                no_text(f"fn {d}: body {fb.strip()!r} is not a literal of type {ty}")
         out.append({"name": ser, "ty": ty, "skip": skip is not None, "dflt": dflt})
     return out
 
@@ -179,27 +494,27 @@ def signature_struct(src):
 def sketch_enum(src):
     m = re.search(r"((?:#\[[^\]]*\]\s*)+)(?:#\[cfg_attr\((?:[^()]|\([^()]*\))*\)\]\s*)*pub\s+enum\s+Sketch\s*\{", src, re.S)
     if not m:
-        die("sketch/mod.rs: enum Sketch not found")
+        no_text("sketch/mod.rs: enum Sketch not found")
     head = src[:src.index("pub enum Sketch")]
     head = head[head.rindex("#[derive"):]
     untagged = bool(re.search(r"#\[serde\(\s*untagged\s*\)\]", head))
     body = block_after(src, r"pub\s+enum\s+Sketch\s*\{", "enum Sketch")
     vs = re.findall(r"(\w+)\s*\(\s*(\w+)\s*\)", strip_comments(body))
     if not vs:
-        die("enum Sketch: no variants")
+        no_text("enum Sketch: no variants")
     return untagged, vs
 
 
 def hll_struct(src):
     m = re.search(r"#\[derive\(([^)]*)\)\](?:\s*#\[cfg_attr\((?:[^()]|\([^()]*\))*\)\])*\s*pub\s+struct\s+HyperLogLog\s*\{", src, re.S)
     if not m or "Serialize" not in m.group(1) or "Deserialize" not in m.group(1):
-        die("hyperloglog: serde derive on HyperLogLog not found")
+        no_text("hyperloglog: serde derive on HyperLogLog not found")
     if not re.search(r"type\s+CounterType\s*=\s*u8\s*;", read("sketch/hyperloglog/estimators.rs")):
-        die("hyperloglog: CounterType is no longer u8")
+        no_text("hyperloglog: CounterType is no longer u8")
     f = struct_fields(block_after(src, r"pub\s+struct\s+HyperLogLog\s*\{", "struct HyperLogLog"), "struct HyperLogLog")
     for a, n, _ in f:
         if any("serde" in x for x in a):
-            die(f"HyperLogLog.{n}: serde attribute not understood")
+            no_text(f"HyperLogLog.{n}: serde attribute not understood")
     return [(n, t) for _, n, t in f]
 
 
@@ -207,31 +522,48 @@ def display_arms(src):
     body = block_after(src, r"impl\s+std::fmt::Display\s+for\s+HashFunctions\s*\{", "Display for HashFunctions")
     arms = re.findall(r"HashFunctions::(\w+)\s*=>\s*\"([^\"]*)\"", body)
     if not arms:
-        die("Display for HashFunctions: no arms")
+        no_text("Display for HashFunctions: no arms")
     return arms
 
 
-# ----------------------------------------------------------------------------- behavioural dump
+def textual_notes(b):
+    """read the same tables off the source text; every item that cannot be read or reads differently is a note"""
+    def u(rows):  # u64 and usize are one behavioural class
+        return [(n, "u64" if t == "usize" else t) for n, t in rows]
 
-def dump():
-    if not os.path.exists(BIN):
-        die(f"{BIN} missing (the harness is built before the translator runs)")
-    p = subprocess.run([BIN, "dump"], capture_output=True, timeout=120)
-    if p.returncode != 0:
-        die("harness c06 dump failed: " + p.stderr.decode(errors="replace")[-500:])
-    d = {}
-    for line in p.stdout.decode().splitlines():
-        k, _, v = line.partition(" ")
-        if k in ("molecule", "default", "required"):
-            a, _, b = v.partition(" ")
-            d.setdefault(k, {})[a] = b
-        else:
-            d[k] = v.split()
-    return d
+    def minhash(ty, ser_key, tmp_key, arms_key):
+        mh = read("sketch/minhash.rs")
+        yield f"impl Serialize for {ty}", lambda: ser_fields(mh, ty), b[ser_key]
+        got = {}
+        def ts():
+            if "v" not in got:
+                got["v"] = temp_sig(mh, ty)
+            return got["v"]
+        yield f"TempSig of {ty}", lambda: u(ts()[0]), u(b[tmp_key])
+        yield f"molecule match of {ty}", lambda: ts()[1], b[arms_key]
 
-
-def unhex(s):
-    return "" if s == "-" else bytes.fromhex(s).decode()
+    items = []
+    for args in (("KmerMinHash", "kmh_ser", "kmh_tmp", "kmh_arms"), ("KmerMinHashBTree", "bt_ser", "bt_tmp", "bt_arms")):
+        try:
+            items += list(minhash(*args))
+        except NoText as e:
+            print(f"translator/c06.py: note: textual cross-check not available ({e}); tables taken from the behavioural dump")
+    items.append(("struct Signature", lambda: signature_struct(read("signature.rs")), b["sig"]))
+    def sk():
+        untagged, vs = sketch_enum(read("sketch/mod.rs"))
+        if not untagged:
+            no_text("enum Sketch carries no #[serde(untagged)]")
+        return vs
+    items.append(("enum Sketch", sk, b["variants"]))
+    items.append(("struct HyperLogLog", lambda: u(hll_struct(read("sketch/hyperloglog/mod.rs"))), u(b["hll"])))
+    items.append(("Display for HashFunctions", lambda: display_arms(read("encodings.rs")), b["disp"]))
+    for what, thunk, want in items:
+        try:
+            got = thunk()
+            if got != want:
+                no_text(f"the text reads {got}, the built crate behaves as {want}")
+        except NoText as e:
+            print(f"translator/c06.py: note: textual cross-check of {what} not available ({e}); table taken from the behavioural dump")
 
 
 # ----------------------------------------------------------------------------- Lean emission
@@ -245,48 +577,10 @@ def lean_str(s):
 
 
 def main():
-    mh = read("sketch/minhash.rs")
-    kmh_ser = ser_fields(mh, "KmerMinHash")
-    bt_ser = ser_fields(mh, "KmerMinHashBTree")
-    kmh_tmp, kmh_arms = temp_sig(mh, "KmerMinHash")
-    bt_tmp, bt_arms = temp_sig(mh, "KmerMinHashBTree")
-    sig = signature_struct(read("signature.rs"))
-    untagged, variants = sketch_enum(read("sketch/mod.rs"))
-    hll = hll_struct(read("sketch/hyperloglog/mod.rs"))
-    disp = display_arms(read("encodings.rs"))
-    if not untagged:
-        die("enum Sketch is no longer #[serde(untagged)]")
-
-    # ---- behavioural cross-check
-    d = dump()
-    def expect(what, got, want):
-        if got != want:
-            die(f"serde_json emits {what} = {got}, the sources say {want}")
-    expect("KmerMinHash keys (with abundances)", d["kmh_abund"], [n for n, _ in kmh_ser])
-    expect("KmerMinHash keys (no abundances)", d["kmh"], [n for n, c in kmh_ser if not c])
-    expect("KmerMinHashBTree keys", d["btree_abund"], [n for n, _ in bt_ser])
-    expect("HyperLogLog keys", d["hll"], [n for n, _ in hll])
-    expect("Signature keys", d["signature"], [f["name"] for f in sig])
-    expect("Signature keys (name = None)", d["signature_noname"], [f["name"] for f in sig if not (f["skip"] and f["name"] == "name")])
-    expect("top level is an array", d["top_is_array"], ["true"])
-    for var, s in disp:
-        if d["molecule"].get(var) != s:
-            die(f"Display of HashFunctions::{var}: harness says {d['molecule'].get(var)!r}, source says {s!r}")
-    for f in sig:
-        k = f["dflt"][0]
-        if k == "str":
-            if unhex(d["default"][f["name"]]) != f["dflt"][1]:
-                die(f"default of Signature.{f['name']}: behaviour {d['default'][f['name']]!r} vs source {f['dflt'][1]!r}")
-        elif k == "f64":
-            bits = "%016x" % struct.unpack(">Q", struct.pack(">d", f["dflt"][1]))[0]
-            if d["default"][f["name"]] != bits:
-                die(f"default of Signature.{f['name']}: behaviour {d['default'][f['name']]} vs source {bits}")
-        elif k == "none":
-            if d["default"][f["name"]] != "~":
-                die(f"Signature.{f['name']} absent does not load as None")
-        elif k == "required":
-            if f["name"] in d["required"] and d["required"][f["name"]] != "true":
-                die(f"Signature.{f['name']} is not required on load")
+    b = behavioural()
+    textual_notes(b)
+    kmh_ser, bt_ser, kmh_tmp, bt_tmp = b["kmh_ser"], b["bt_ser"], b["kmh_tmp"], b["bt_tmp"]
+    kmh_arms, bt_arms, disp, hll, variants, sig = b["kmh_arms"], b["bt_arms"], b["disp"], b["hll"], b["variants"], b["sig"]
 
     # ---- emit
     tys = ["u32", "u64", "usize", "f64", "string", "optString", "vecU64", "optVecU64", "vecU8", "vecSketch"]
